@@ -12,8 +12,15 @@ Definition nokey (nodes : list node) : Prop :=
   forall nd, In nd nodes -> from_tape (n_op nd) = true -> key_none (n_op nd).
 Definition few_deps (nodes : list node) : Prop :=
   forall nd, In nd nodes -> Z.of_nat (length (n_deps nd)) < 2 ^ 64.
+(* none of ArrayToVector, Zip, A2B, B2A occurs *)
+Definition plain_meta (o : op) : bool :=
+  match o with OArrayToVector | OZip | OA2B | OB2A _ => false | _ => true end.
 Definition simple_ops (nodes : list node) : Prop :=
-  forall nd, In nd nodes -> simple_meta (n_op nd) = true.
+  forall nd, In nd nodes -> plain_meta (n_op nd) = true.
+Lemma simple_ops_simple nodes : simple_ops nodes -> forall nd, In nd nodes -> simple_meta (n_op nd) = true.
+Proof. intros H nd I. specialize (H nd I). destruct (n_op nd); cbn in *; auto; discriminate. Qed.
+Lemma simple_ops_no_bits nodes : simple_ops nodes -> ~ bits_ops nodes.
+Proof. intros H (nd & I & [E|(st & E)]); specialize (H nd I); rewrite E in H; discriminate. Qed.
 Definition infer_const (infer : op -> list ty -> ty) : Prop := forall t v, infer (OConstant t v) [] = t.
 
 Lemma Forall2_and_r {A B} (R : A -> B -> Prop) (P : B -> Prop) l l' :
